@@ -212,7 +212,27 @@ class BeliefPropagationDecoder(BaseBlockDecoder[Union[LinearBlockCodeEncoder, LD
         self.n_c = self.H.size(0)
         self.prep_edge_ind()
         if not self.standard:
-            self.idx_mess_t = torch.where(self.G.sum(0) == 1)[0]
+            self.idx_mess_t = self._find_message_positions()
+
+    def _find_message_positions(self):
+        """Find, for every message bit, a codeword position that carries it unchanged.
+
+        Message bit i can be read directly from position j when column j of the generator
+        matrix is the i-th unit vector.
+
+        Returns:
+            Tensor with one position per message bit (in message order), or None if the
+            generator matrix has no such column for some message bit.
+        """
+        positions = []
+        for i in range(self.k):
+            unit = torch.zeros(self.k, dtype=self.G.dtype, device=self.G.device)
+            unit[i] = 1
+            columns = torch.where((self.G == unit.unsqueeze(1)).all(dim=0))[0]
+            if columns.numel() == 0:
+                return None
+            positions.append(columns[0])
+        return torch.stack(positions)
 
     def prep_edge_ind(self):
         """Prepare edge indices and map structures for the Tanner graph.
@@ -437,7 +457,7 @@ class BeliefPropagationDecoder(BaseBlockDecoder[Union[LinearBlockCodeEncoder, LD
             self.ext_ec = [ext_ec.to(self.device) for ext_ec in self.ext_ec]
             self.ext_ce = [ext_ce.to(self.device) for ext_ce in self.ext_ce]
             self.cv_order = self.cv_order.to(self.device)
-            if not self.standard:
+            if not self.standard and self.idx_mess_t is not None:
                 self.idx_mess_t = self.idx_mess_t.to(self.device)
 
         def decode_block(received_block: torch.Tensor) -> torch.Tensor:
@@ -452,11 +472,16 @@ class BeliefPropagationDecoder(BaseBlockDecoder[Union[LinearBlockCodeEncoder, LD
                 cv = self.compute_cv(vc)
                 messages = self.marginalize(cv, received_block.view(-1, L))
             decoded_block = messages.view(B, L)
-            idx_mess = self.idx_mess_t.unsqueeze(0).unsqueeze(0).repeat_interleave(B, dim=0).to(self.device)
-            message_llr = decoded_block.view(B, 1, -1).gather(2, idx_mess).contiguous()
-
-            decoded_llr = message_llr.view(B, -1)
-            decoded_info = sign_to_bin(torch.sign(decoded_llr))
+            if self.idx_mess_t is not None:
+                idx_mess = self.idx_mess_t.unsqueeze(0).unsqueeze(0).repeat_interleave(B, dim=0).to(self.device)
+                message_llr = decoded_block.view(B, 1, -1).gather(2, idx_mess).contiguous()
+                decoded_llr = message_llr.view(B, -1)
+                decoded_info = sign_to_bin(torch.sign(decoded_llr))
+            else:
+                # Non-systematic generator matrix: invert the encoding of the hard codeword estimate
+                hard_codeword = sign_to_bin(torch.sign(decoded_block))
+                right_inverse = self.encoder.generator_right_inverse.to(hard_codeword.dtype).to(self.device)
+                decoded_info = torch.matmul(hard_codeword, right_inverse) % 2
             if self.return_soft:
                 return (decoded_info, decoded_block)
             return decoded_info
